@@ -20,6 +20,7 @@ HistOk(e) ==
     CASE e.ev = "parse" -> e.out = "ok"
       [] e.ev = "newt" -> e.out = "ok" /\ ~e.isnil /\ e.a \in DOMAIN sr /\ e.b \in DOMAIN sr
       [] e.ev = "call" -> /\ e.t \in DOMAIN tf
+                          /\ ~e.panicked                                 \* a transformer returns, it never panics
                           /\ e.res = Fresh(e, sr[tf[e.t].s].def, sr[tf[e.t].d].def, e.k)
       [] OTHER -> FALSE
 
